@@ -11,6 +11,8 @@ import (
 	"strings"
 	"time"
 
+	"golang.org/x/tools/go/ssa"
+
 	"symgo/smt"
 )
 
@@ -52,6 +54,7 @@ type ObligationResult struct {
 	Sat       int
 	Unknown   int
 	KnownSat  int // failures attributed to a listed known finding
+	AbstractSat, ExactRefuted, AbstractOnly int
 	Trivial   int // assertion was a concrete `true`
 	Witnesses []*Witness
 	SolverMS  int64
@@ -91,6 +94,8 @@ type Limits struct {
 type Engine struct {
 	Ctx     *smt.Ctx
 	S       *smt.Solver
+	SX      *smt.Solver // exact solver used to confirm counterexamples of the abstraction
+	XStats  smt.Stats
 	Harness string
 	Lim     Limits
 
@@ -124,6 +129,12 @@ type Engine struct {
 	KnownWit    map[string]*Witness
 	tags        []string
 	traceCalls  bool
+	reachTries  map[string]int
+	exactNext   bool
+	Probe       bool // probing run: no solver-backed obligations
+	snap        interface{}
+	snapCells   map[*ssa.Global]*value
+	Forced      []int // forced alternatives for the leading pure choices (task splitting)
 	OverflowChecks bool
 	Thorough    bool
 	Events      int
@@ -152,13 +163,16 @@ func NewEngine(harness string, ideal bool, solverCmd []string, lim Limits) (*Eng
 		Ctx: ctx, S: s, Harness: harness, Lim: lim,
 		Obl: map[string]*ObligationResult{}, Reached: map[string]int{}, ReachWit: map[string]*Witness{},
 		Aborted: map[string]int{}, Funcs: map[string]int64{}, StubsHit: map[string]int{},
-		Ranges: map[string]rangeDecl{}, NondetSites: map[string]int{}, KnownHits: map[string]int{}, KnownWit: map[string]*Witness{},
+		Ranges: map[string]rangeDecl{}, reachTries: map[string]int{}, NondetSites: map[string]int{}, KnownHits: map[string]int{}, KnownWit: map[string]*Witness{},
 	}, nil
 }
 
 func (e *Engine) Mode() string {
 	if e.Ctx.Ideal {
 		return "ideal-Q"
+	}
+	if e.S != nil && e.S.Abstract {
+		return "exact-Z (explored under the UF abstraction of nonlinear terms, counterexamples confirmed exactly)"
 	}
 	return "exact-Z"
 }
@@ -274,8 +288,17 @@ func (e *Engine) choose(n int, conds []*smt.Term, label string) int {
 	d := decision{n: n, feas: make([]bool, n), conds: conds, label: label}
 	first := -1
 	nFeasKnown := 0
+	forced := -1
+	if conds == nil && len(e.decs) < len(e.Forced) {
+		forced = e.Forced[len(e.decs)]
+		if forced >= n {
+			panic(abortPath{"unsupported", "forced choice out of range"})
+		}
+	}
 	for i := 0; i < n; i++ {
-		if conds == nil || conds[i] == nil {
+		if forced >= 0 {
+			d.feas[i] = i == forced
+		} else if conds == nil || conds[i] == nil {
 			d.feas[i] = true
 		} else if v, ok := conds[i].ConstBool(); ok {
 			d.feas[i] = v
@@ -285,6 +308,13 @@ func (e *Engine) choose(n int, conds []*smt.Term, label string) int {
 		} else {
 			r := e.check(e.Lim.BranchTO, conds[i])
 			d.feas[i] = r != smt.Unsat
+			if d.feas[i] && e.exactNext && e.S.Abstract {
+				// decisions whose alternatives depend on real arithmetic (loop bounds,
+				// divisors): confirm feasibility with the exact encoding
+				if e.exactQuery(conds[i], e.Lim.BranchTO*2) == smt.Unsat {
+					d.feas[i] = false
+				}
+			}
 		}
 		if d.feas[i] {
 			nFeasKnown++
@@ -393,7 +423,7 @@ func ratString(r *big.Rat) string {
 	return r.String()
 }
 
-func (e *Engine) model() (map[string]string, error) {
+func (e *Engine) modelFrom(sv *smt.Solver) (map[string]string, error) {
 	var vars []*smt.Term
 	for _, v := range e.Ctx.Vars {
 		if !strings.Contains(v.Name, "!") { // skip engine-internal fresh variables
@@ -416,7 +446,7 @@ func (e *Engine) model() (map[string]string, error) {
 			ask = append(ask, v)
 		}
 	}
-	m, err := e.S.Model(ask)
+	m, err := sv.Model(ask)
 	if err != nil {
 		return nil, err
 	}
@@ -443,8 +473,10 @@ func (e *Engine) model() (map[string]string, error) {
 	return out, nil
 }
 
-func (e *Engine) witness(kind, id, note string) *Witness {
-	m, err := e.model()
+func (e *Engine) witness(kind, id, note string) *Witness { return e.witnessFrom(e.S, kind, id, note) }
+
+func (e *Engine) witnessFrom(sv *smt.Solver, kind, id, note string) *Witness {
+	m, err := e.modelFrom(sv)
 	if err != nil {
 		e.Notes = append(e.Notes, "model extraction failed for "+id+": "+err.Error())
 		return nil
@@ -455,7 +487,7 @@ func (e *Engine) witness(kind, id, note string) *Witness {
 		for _, k := range e.obsKeys {
 			ts = append(ts, e.obsTerms[k])
 		}
-		vals, err := e.S.Values(ts)
+		vals, err := sv.Values(ts)
 		if err != nil {
 			e.Notes = append(e.Notes, "observable extraction failed for "+id+": "+err.Error())
 		} else {
@@ -474,7 +506,54 @@ func (e *Engine) Assert(id string, cond *smt.Term) { e.Assert2(id, cond, "") }
 // Fail: an obligation violated unconditionally on this path (e.g. a panic).
 func (e *Engine) Fail(id, note string) { e.Assert2(id, e.Ctx.False(), note) }
 
+func (e *Engine) replaying() bool { return e.Probe || e.pos < len(e.decs) }
+
+// exactSolver returns the second, non-abstracting solver (started lazily) loaded with
+// the current path condition plus extra, at a fresh scope.
+func (e *Engine) exactQuery(extra *smt.Term, to time.Duration) smt.Result {
+	if e.SX == nil {
+		sx, err := smt.NewSolver(e.Ctx, e.S.Cmd)
+		if err != nil {
+			return smt.Unknown
+		}
+		e.SX = sx
+	}
+	if e.SX.Dead {
+		if err := e.SX.Restart(); err != nil {
+			return smt.Unknown
+		}
+	}
+	e.SX.PopTo(0)
+	e.SX.Push()
+	for _, l := range e.pc {
+		for _, c := range l {
+			e.SX.Assert(c)
+		}
+	}
+	if extra != nil {
+		e.SX.Assert(extra)
+	}
+	r := e.SX.Check(to)
+	e.XStats.Queries++
+	switch r {
+	case smt.Sat:
+		e.XStats.Sat++
+	case smt.Unsat:
+		e.XStats.Unsat++
+	default:
+		e.XStats.Unknown++
+	}
+	return r
+}
+
 func (e *Engine) Assert2(id string, cond *smt.Term, note string) {
+	if e.replaying() {
+		// already decided by the run that first explored this prefix
+		if v, ok := cond.ConstBool(); !(ok && v) {
+			e.addPC(cond)
+		}
+		return
+	}
 	o := e.obl(id)
 	o.Paths++
 	if v, ok := cond.ConstBool(); ok && v {
@@ -487,18 +566,41 @@ func (e *Engine) Assert2(id string, cond *smt.Term, note string) {
 	e.S.Push()
 	e.S.Assert(neg)
 	r := e.S.Check(e.Lim.AssertTO)
+	modelFrom := e.S
 	if e.S.Dead {
 		e.rebuildSolver()
 		r = smt.Unknown
 	} else {
+		if r != smt.Unsat && e.S.Abstract {
+			// abstract sat/unknown: decide with the exact encoding
+			o.AbstractSat++
+			rx := e.exactQuery(neg, e.Lim.AssertTO)
+			switch rx {
+			case smt.Unsat:
+				r = smt.Unsat
+				o.ExactRefuted++
+			case smt.Sat:
+				r = smt.Sat
+				modelFrom = e.SX
+			default:
+				// exact solver could not decide: keep the abstract model as a candidate
+				// (it is reported only if it reproduces natively)
+				if r == smt.Sat {
+					o.AbstractOnly++
+				}
+			}
+		}
 		if r == smt.Sat {
 			kr := e.matchKnown(id)
 			if kr != nil {
 				e.KnownHits[kr.What]++
 			}
 			if (kr == nil && len(o.Witnesses) < 3) || (kr != nil && e.KnownWit[kr.What] == nil) {
-				if w := e.witness("violation", id, note); w != nil {
+				if w := e.witnessFrom(modelFrom, "violation", id, note); w != nil {
 					w.Tags = append([]string(nil), e.tags...)
+					if modelFrom == e.S && e.S.Abstract {
+						w.Note += " [model of the UF abstraction; exact solver undecided]"
+					}
 					if kr != nil {
 						w.Kind = "known"
 						e.KnownWit[kr.What] = w
@@ -581,9 +683,31 @@ func (e *Engine) matchKnown(id string) *KnownRegion {
 }
 
 func (e *Engine) Reach(id string) {
-	e.Reached[id]++
-	if e.ReachWit[id] != nil {
+	if e.replaying() {
 		return
+	}
+	e.Reached[id]++
+	if w := e.ReachWit[id]; w != nil && !strings.Contains(w.Note, "abstraction") {
+		return
+	}
+	if e.S.Abstract && e.reachTries[id] < 2 {
+		e.reachTries[id]++
+		to := e.Lim.AssertTO
+		if to > 3*time.Second {
+			to = 3 * time.Second
+		}
+		switch e.exactQuery(nil, to) {
+		case smt.Sat:
+			if w := e.witnessFrom(e.SX, "reach", id, ""); w != nil {
+				e.ReachWit[id] = w
+			}
+			return
+		case smt.Unsat:
+			panic(abortPath{"infeasible", "path condition unsatisfiable in exact arithmetic"})
+		}
+		if e.ReachWit[id] != nil {
+			return
+		}
 	}
 	e.S.Push()
 	r := e.S.Check(e.Lim.AssertTO)
@@ -592,14 +716,23 @@ func (e *Engine) Reach(id string) {
 		return
 	}
 	if r == smt.Sat {
-		if w := e.witness("reach", id, ""); w != nil {
+		note := ""
+		if e.S.Abstract {
+			note = "model of the UF abstraction"
+		}
+		if w := e.witness("reach", id, note); w != nil {
 			e.ReachWit[id] = w
 		}
 	}
 	e.S.PopTo(e.S.Level() - 1)
 }
 
-func (e *Engine) Close() { e.S.Close() }
+func (e *Engine) Close() {
+	e.S.Close()
+	if e.SX != nil {
+		e.SX.Close()
+	}
+}
 
 // SortedObligations returns obligation ids sorted.
 func (e *Engine) SortedObligations() []string {
